@@ -416,6 +416,14 @@ func runC13(c *engine.Ctx) {
 		}
 	}
 	c.Floor(n, 3)
+
+	// ---- R7 the connection-pool key includes the chosen group member (shared with C02.R4): otherwise idle backend
+	// connections are reused across members and a departed member keeps answering ----
+	checkPoolKey(c, "R7")
+
+	// ---- R8 channel typestate (shared with C16.R3): the groups' hand-off channels are closed once, and a closed
+	// channel is reset where the object can be reused by an overlapping join ----
+	c16ChannelsPrefixed(c, li, "R8")
 }
 
 // checkCleanupAfterAcquire (C13.R2 second half, also C10.R10): a closure that releases a registration is queued for
